@@ -199,6 +199,27 @@ def run(c, chk):
             chk.fail('R19.2', 'public-filter:%s' % fname, c.where(c.need(fname)), '%s() does not print through the filtering context printer' % fname)
     chk.floor('R19.2 outer calls of the context printer', nouter, 1)
 
+    # ---- R19.6: inheritance happens at print time only ----------------------------------------------
+    chk.rule('R19.6', 'a context\'s own filter is written only by its setter: no section is given a copy of another context\'s filter (inheritance is decided when printing)')
+    from ..summaries import store_key
+    writers = {}
+    for f in c.confuse.funcs.values():
+        for ins in f.instrs():
+            if ins.op == 'store' and ins.ops[1].kind == 'reg':
+                g = f.defs.get(ins.ops[1].name)
+                if g is not None and g.op == 'getelementptr' and (g.srcty or '').strip() == '%struct.cfg_t' and len(g.ops) >= 3 and g.ops[2].kind == 'int' \
+                        and c.confuse.field_name('%struct.cfg_t', g.ops[2].ival) == 'pff':
+                    for o in c.owners(f.name):
+                        writers.setdefault(o, ins)
+    extra = sorted(set(writers) - {'cfg_set_print_filter_func'})
+    if extra:
+        chk.fail('R19.6', 'filter-copied:%s' % ','.join(extra), c.where(writers[extra[0]]),
+                 '%s() writes a context\'s own print filter: a section that carries a copy of its parent\'s filter keeps applying it after the parent\'s filter was changed or removed' % extra[0])
+    elif 'cfg_set_print_filter_func' not in writers:
+        raise report.Broken('the print filter setter was not found')
+    else:
+        chk.ok('R19.6', 'writers of cfg->pff', 'cfg_set_print_filter_func() only')
+
     # ---- R19.3 / R19.4 / R19.5 -------------------------------------------------------------------
     ex3 = sym.Explorer(c.modules, max_visits=4 if chk.tier == 'thorough' else 3, mod_sets=c.mod_sets, max_paths=200000)
     paths = [p for p in ex3.explore(op) if p.end == 'ret']
@@ -266,6 +287,12 @@ def run(c, chk):
             text = outmodel.render(outmodel.tokens(ev, calls=MARKS))[0]
             unset = any(cn[0] == 'icmp' and cn[2][0] == 'call' and cn[2][1] == 'cfg_opt_size' and cn[3] == sym.C0 and ((cn[1] == 'eq') == t) for cn, t, _ in p.assume) or \
                 any(cn[0] == 'icmp' and cn[2][0] == 'call' and cn[2][1] == 'cfg_opt_getnstr' and cn[3] == sym.C0 and ((cn[1] == 'eq') == t) for cn, t, _ in p.assume)
+            decided = any(cn[0] == 'icmp' and cn[2][0] == 'call' and cn[2][1] == 'cfg_opt_size' and cn[3] == sym.C0 for cn, t, _ in p.assume)
+            if '%s=' in text and not decided:
+                ok5 = False
+                chk.fail('R19.5', 'unset-undecided', c.where(op), 'a scalar option is written as "name=..." on a path that never asks whether it has a value (%s): '
+                         'without a value it is not commented out there' % ' && '.join(conds[-3:]))
+                break
             if '%s=' in text:
                 if unset:
                     nunset += 1
